@@ -412,7 +412,7 @@ func (g *c15gen) Statement() (string, string) {
 				sql += " WHERE " + g.cond("on-conflict-where", depth-1)
 			}
 		}
-		return sql + g.returning(depth - 1), "insert-values"
+		return sql + g.returning(depth-1), "insert-values"
 	case 5:
 		w := g.withClause(depth)
 		t, _ := g.target("insert-target")
@@ -438,7 +438,7 @@ func (g *c15gen) Statement() (string, string) {
 		if g.r.Intn(4) != 0 {
 			sql += " WHERE " + g.cond("update-where", depth)
 		}
-		return sql + g.returning(depth - 1), "update"
+		return sql + g.returning(depth-1), "update"
 	case 8:
 		t, _ := g.target("delete-target")
 		g.scope = nil
@@ -446,7 +446,7 @@ func (g *c15gen) Statement() (string, string) {
 		if g.r.Intn(4) != 0 {
 			sql += " WHERE " + g.cond("delete-where", depth)
 		}
-		return sql + g.returning(depth - 1), "delete"
+		return sql + g.returning(depth-1), "delete"
 	default:
 		t, _ := g.target("merge-target")
 		al1 := g.fresh("al")
@@ -542,16 +542,14 @@ func runC15(c *runCtx) {
 	}
 	g := &c15gen{r: c.rng.Fork()}
 	n := c.n(1500, 60000)
-	for i := 0; i < n; i++ {
-		sql, kind := g.Statement()
-		rec := g.rec
+	process := func(i int, sql, kind string, rec *c15rec) {
 		tree, err := gosqlx.Parse(sql)
 		if err != nil {
 			res.stat("rejected:" + kind)
 			if os.Getenv("VX_VERBOSE") != "" {
 				fmt.Println("REJECTED", sql, "::", strings.SplitN(err.Error(), "\n", 2)[0])
 			}
-			continue
+			return
 		}
 		res.count(sql, true)
 		res.stat("accepted:" + kind)
@@ -653,6 +651,21 @@ func runC15(c *runCtx) {
 			}
 		}
 	}
+	for i := 0; i < n; i++ {
+		sql, kind := g.Statement()
+		process(i, sql, kind, g.rec)
+	}
+	// deep and wide trees: names at the far end of long operator chains, at the bottom of towers of derived tables,
+	// scalar sub-queries, calls and CASEs, in wide lists and long set-operation chains ("at any depth")
+	nd := 0
+	for _, size := range c15DeepSizes(c.tier) {
+		for fam := 0; fam < c15DeepFamilies; fam++ {
+			sql, kind := g.deep(fam, size)
+			process(3*nd+1, sql, kind, g.rec)
+			nd++
+		}
+	}
+
 	// correspondence on the corpora and on the general statement generator
 	var extra []string
 	extra = append(extra, builtinCorpus...)
@@ -694,4 +707,127 @@ func lowerKeywords(sql string) string {
 		b.WriteRune(r)
 	}
 	return b.String()
+}
+
+const c15DeepFamilies = 11
+
+func c15DeepSizes(tier string) []int {
+	if tier == "thorough" {
+		return []int{8, 30, 49, 52, 60, 80, 97, 99, 101, 120, 250, 600, 1500}
+	}
+	return []int{30, 52, 99, 120, 400}
+}
+
+// deep builds a statement of one deep / wide family with `size` levels or operands; every name is fresh and recorded.
+func (g *c15gen) deep(fam, size int) (string, string) {
+	g.rec = newC15rec()
+	g.scope, g.ctes, g.tbBases, g.clBases = nil, nil, nil, nil
+	g.n += 100000
+	tb := func(pos string) string {
+		t := g.fresh("tb")
+		g.put(g.rec.tables, t, pos)
+		return t
+	}
+	cl := func(pos string) string {
+		c := g.fresh("cl")
+		g.put(g.rec.cols, c, pos)
+		g.put(g.rec.qcols, "/"+c, pos)
+		return c
+	}
+	fn := func(pos string) string {
+		f := g.fresh("fn")
+		g.put(g.rec.funcs, f, pos)
+		return f
+	}
+	switch fam {
+	case 0: // AND / OR chain in WHERE, operands partly wrapped in calls
+		var ops []string
+		for i := 0; i < size; i++ {
+			x := cl("deep-where-chain")
+			if i%7 == 0 {
+				x = fn("deep-where-chain") + "(" + x + ")"
+			}
+			ops = append(ops, x+" = "+fmt.Sprint(i))
+		}
+		sep := " AND "
+		if size%2 == 1 {
+			sep = " OR "
+		}
+		return "SELECT " + cl("select-list") + " FROM " + tb("from") + " WHERE " + strings.Join(ops, sep), "deep-where-chain"
+	case 1: // concatenation chain in the select list
+		var ops []string
+		for i := 0; i < size; i++ {
+			ops = append(ops, fn("deep-select-chain")+"("+cl("deep-select-chain")+")")
+		}
+		return "SELECT " + strings.Join(ops, " || ") + " FROM " + tb("from"), "deep-select-chain"
+	case 2: // arithmetic chain in JOIN ON, HAVING and ORDER BY
+		chain := func(pos string) string {
+			var ops []string
+			for i := 0; i < size; i++ {
+				ops = append(ops, cl(pos))
+			}
+			return strings.Join(ops, " + ")
+		}
+		return "SELECT " + cl("select-list") + " FROM " + tb("from") + " JOIN " + tb("join") + " ON " + chain("deep-join-on-chain") + " = 1 GROUP BY " + cl("group-by") +
+			" HAVING " + chain("deep-having-chain") + " > 1 ORDER BY " + chain("deep-order-by-chain"), "deep-clause-chains"
+	case 3: // tower of derived tables
+		inner := "SELECT " + cl("deep-derived-tower") + " FROM " + tb("deep-derived-tower")
+		for i := 0; i < size; i++ {
+			al := g.fresh("al")
+			g.rec.aliases[al] = true
+			inner = "SELECT " + cl("deep-derived-tower") + " FROM (" + inner + ") " + al
+		}
+		return inner, "deep-derived-tower"
+	case 4: // tower of scalar sub-queries in WHERE
+		inner := "SELECT " + cl("deep-subquery-tower") + " FROM " + tb("deep-subquery-tower")
+		for i := 0; i < size; i++ {
+			inner = "SELECT " + cl("deep-subquery-tower") + " FROM " + tb("deep-subquery-tower") + " WHERE " + cl("deep-subquery-tower") + " = (" + inner + ")"
+		}
+		return inner, "deep-subquery-tower"
+	case 5: // nested calls
+		x := cl("deep-call-tower")
+		for i := 0; i < size; i++ {
+			x = fn("deep-call-tower") + "(" + x + ")"
+		}
+		return "SELECT " + x + " FROM " + tb("from"), "deep-call-tower"
+	case 6: // wide IN list and wide select list
+		var items, sel []string
+		for i := 0; i < size; i++ {
+			items = append(items, cl("wide-in-list"))
+			sel = append(sel, cl("wide-select-list"))
+		}
+		return "SELECT " + strings.Join(sel, ", ") + " FROM " + tb("from") + " WHERE " + cl("where") + " IN (" + strings.Join(items, ", ") + ")", "wide-lists"
+	case 7: // long UNION chain
+		var arms []string
+		for i := 0; i < size; i++ {
+			arms = append(arms, "SELECT "+cl("deep-union-chain")+" FROM "+tb("deep-union-chain"))
+		}
+		return strings.Join(arms, " UNION ALL "), "deep-union-chain"
+	case 8: // nested CASE
+		x := cl("deep-case-tower")
+		for i := 0; i < size; i++ {
+			x = "CASE WHEN " + cl("deep-case-tower") + " = 1 THEN " + x + " ELSE " + cl("deep-case-tower") + " END"
+		}
+		return "SELECT " + x + " FROM " + tb("from"), "deep-case-tower"
+	case 9: // many joins, each with its own ON columns
+		sql := "SELECT " + cl("select-list") + " FROM " + tb("from")
+		n := size
+		if n > 60 {
+			n = 60
+		}
+		for i := 0; i < n; i++ {
+			sql += " JOIN " + tb("deep-join-chain") + " ON " + cl("deep-join-chain") + " = " + cl("deep-join-chain")
+		}
+		return sql, "deep-join-chain"
+	default: // nested parentheses around a comparison deep inside NOTs
+		x := cl("deep-paren-tower") + " = " + fn("deep-paren-tower") + "(" + cl("deep-paren-tower") + ")"
+		for i := 0; i < size; i++ {
+			if i%2 == 0 {
+				x = "(" + x + ")"
+			} else {
+				x = "NOT " + x
+			}
+		}
+		return "SELECT " + cl("select-list") + " FROM " + tb("from") + " WHERE " + x, "deep-paren-tower"
+	}
 }
